@@ -66,6 +66,8 @@ def run(ctx, col, tier):
         return  # the line loop is not of the anchored form: reported as R-ANCHOR (a definite violation found above still wins)
     w, loop, handle = got
     from .c01 import r_capture
+    from ..rules import smalllints2 as _s2
+    _s2.run_pathio(ctx, col, ('swcgeom.core.swc_utils.io', 'swcgeom.core.tree', 'swcgeom.core.swc', 'swcgeom.core.population'))
     col.guard(r_capture, ctx, col, "R-CAPTURE")
     col.guard(r_rowlang, ctx, col)
     from .c05 import table_gather_keys
